@@ -1,8 +1,8 @@
 //! Engine E2 — reference Spectrum machine: RefZ80 on a bus that implements the memory map,
 //! the ULA contention model, frame/INT timing and port decode *as stated in the properties*.
 
-use crate::host::Machine;
-use crate::mach::MemModel;
+use crate::host::{Emu, Machine};
+use crate::mach::{self, MemModel};
 use refz80::{RBus, RefZ80, StepInfo, StepKind};
 
 pub const PATTERN: [u64; 8] = [6, 5, 4, 3, 2, 1, 0, 0];
@@ -235,5 +235,59 @@ impl RefMachine {
             guard += 1;
         }
         info
+    }
+}
+
+/// Common time origin of an emulator and a reference machine that were synchronised by the
+/// harness (same frame clock, same state): emulator time = frames since `emu_frames0` * frame
+/// length + frame clock; the reference machine's `bus.t` counts from the same origin.
+pub struct TimeBase {
+    pub emu_frames0: u64,
+    pub frame_len: u64,
+}
+
+impl TimeBase {
+    pub fn new(e: &Emu, machine: Machine) -> Self {
+        Self { emu_frames0: e.verif_total_frames(), frame_len: machine.frame_len() as u64 }
+    }
+    pub fn emu_t(&self, e: &Emu) -> u64 {
+        (e.verif_total_frames() - self.emu_frames0) * self.frame_len + e.verif_frame_clocks() as u64
+    }
+}
+
+impl RefMachine {
+    /// one fine-grained reference step (prefix byte, instruction, HALT cycle or interrupt entry)
+    pub fn step_fine(&mut self) -> StepInfo {
+        let info = self.cpu.step(&mut self.bus);
+        if info.kind == StepKind::Int {
+            self.ints_taken += 1;
+        }
+        info
+    }
+
+    /// Brings emulator and reference to a common instruction boundary at equal emulated time,
+    /// whatever each side's step granularity is (how `Z80::emulate` groups prefixes, interrupt
+    /// entry and the following instruction is not part of any property): the side that is
+    /// behind steps. Fails if no common boundary is found within a few steps.
+    pub fn catch_up(&mut self, e: &mut Emu, tb: &TimeBase) -> Result<(), String> {
+        for _ in 0..24 {
+            let et = tb.emu_t(e);
+            let mt = self.bus.t;
+            if et == mt {
+                return Ok(());
+            }
+            if et < mt {
+                mach::single_step(e)?;
+            } else {
+                self.step_fine();
+            }
+        }
+        Err(format!("no common instruction boundary: emulator at T {}, reference at T {}", tb.emu_t(e), self.bus.t))
+    }
+
+    /// One `emulate()` call on the emulator, then catch up on both sides.
+    pub fn lockstep(&mut self, e: &mut Emu, tb: &TimeBase) -> Result<(), String> {
+        mach::single_step(e)?;
+        self.catch_up(e, tb)
     }
 }
